@@ -377,6 +377,11 @@ impl crate::traits::Transaction for SqliteStore {
 
         let result = tx.commit().await.map_err(SqliteError::Sqlite);
 
+        #[cfg(p2panda_p2panda_verif)]
+        if result.is_ok() {
+            crate::verif::after_commit();
+        }
+
         // Always drop the permit, both on successful commit and error. This will allow other
         // processes now to begin a new transaction and acquire the permit.
         permit.mark_committed_and_drop();
